@@ -16,7 +16,7 @@ def run(chk):
         "TLC-generated lattice (non-bits, wrong weight, inconsistent claimed norm, out-of-range, near misses) is sharded by the genuine sharding code with an "
         "honestly computed proof (RawInput wrapper over the public Type trait) and verified under three verification keys; (tamper) after honest sharding one bit of "
         "every byte position (strided for long messages) of the public share, each input share, each verifier share and the verifier message is flipped, and "
-        "verifier shares are dropped/duplicated. For every call TLC recomputes the exact verdict (accept/reject at verify_init, verifier_shares_to_message, "
+        "verifier shares are dropped/duplicated, and pairs of messages are altered at once. For every call TLC recomputes the exact verdict (accept/reject at verify_init, verifier_shares_to_message, "
         "verify_next, or undecodable) and every output byte from the recorded XOF table: on a tiny field the model's exact accept set is the oracle, so a relaxed "
         "check (partial seed comparison, missing share-count check, unchecked circuit output) shows up as a verdict mismatch.")
     chk.assumptions = ["arbitrary (non-honest) proofs are explored only as single-bit deviations of honest proofs",
